@@ -61,6 +61,7 @@ theorem sim_stmt : ∀ fuel, SimStmt T fuel := by
     | case_ u => exact sim_label T n (.case_ u) (Or.inl ⟨u, rfl⟩) hex hp hits inv
     | default_ => exact sim_label T n .default_ (Or.inr rfl) hex hp hits inv
     | switch_ e b => exact sim_switch T n ihle e b hex hfr hwt hp hext hits hlp inv
+    | call dst rt fn args => simp only [exec] at hex; cases hex
 
 end
 
